@@ -163,14 +163,49 @@ def samePathPairs (s : State) : List (Id × Id) :=
       | none => none
     | _, _ => none
 
-/-- git: give every versioned object (and every directory) at a basis path the identity of that basis
-entry; an object that carried that identity elsewhere gets a fresh one -/
-def reidentify (s : State) : State :=
-  let pairs := samePathPairs s
+/-- give the objects `j` the identities `i` (`pairs`, simultaneously); an object that
+carried one of those identities and is not re-identified itself gets a fresh one -/
+def applyPairs (s : State) (pairs : List (Id × Id)) : State :=
   let olds := (unionNew [] (pairs.map (·.2))).filter fun i =>
     (get s.disk i).isSome && !(pairs.map (·.1)).contains i
   let ren := pairs ++ freshFor s.ctr olds
   { s with disk := renameIds ren s.disk, ver := substVer ren s.ver, ctr := s.ctr + olds.length }
+
+/-- does the versioned object `j` sit at the basis path of its own id? -/
+def atOwnPath (s : State) (j : Id) : Bool :=
+  (get s.basis j).isSome && pathOf s.disk j == pathOf s.basis j
+
+/-- git's exact rename detection, by content: the files / links of the basis whose path
+is vacant (no versioned object of that kind there) are paired, in order, with the
+versioned objects at new paths that hold exactly their content (text / target; the
+executable bit does not matter).  (Two candidates for one entry: known defect of the
+real code, flagged by the oracle.) -/
+def matchRenames (s : State) : List Id → List Id → List (Id × Id)
+  | [], _ => []
+  | i :: rest, cands =>
+    match cands.find? (fun j => match get s.basis i, get s.disk j with
+        | some b, some e => b.node.kind == e.node.kind && !contentChanged b.node e.node
+        | _, _ => false) with
+    | some j => (j, i) :: matchRenames s rest (cands.erase j)
+    | none => matchRenames s rest cands
+
+def renamePairs (s : State) : List (Id × Id) :=
+  let missing := (unionNew [] (ids s.basis)).filter fun i =>
+    match get s.basis i with
+    | some b => b.node.kind != .dir && !(isVer s i && atOwnPath s i)
+    | none => false
+  let cands := s.ver.filter fun j =>
+    match get s.disk j with
+    | some e => e.node.kind != .dir && !atOwnPath s j
+    | none => false
+  (matchRenames s missing cands).filter fun x => x.1 != x.2
+
+/-- git: identity is the path and, for moved files, the content: first every versioned
+object (and every directory) at a basis path gets the identity of that basis
+entry, then exact renames are detected -/
+def reidentify (s : State) : State :=
+  let s1 := applyPairs s (samePathPairs s)
+  applyPairs s1 (renamePairs s1)
 
 /-- the objects revert sets aside instead of overwriting / moving back; the flag
 says whether the object gets a backup name.
